@@ -63,6 +63,7 @@ func vSameBits32(a, b float32) bool
 func vWriteSetBegin()
 func vWriteSetEnd(id string)
 func vObserve(label string, v any)
+func vConcurrently(f func(i int))
 `
 
 var pkgClauseRe = regexp.MustCompile(`(?m)^package\s+(\w+)`)
